@@ -69,6 +69,11 @@ impl Cov {
             *self.counters.entry(key.to_string()).or_insert(0) += n;
         }
     }
+    /// record a running maximum (key must start with "max.")
+    pub fn maxi(&mut self, key: &str, v: u64) {
+        let e = self.counters.entry(key.to_string()).or_insert(0);
+        *e = (*e).max(v);
+    }
     pub fn sample(&mut self, v: serde_json::Value) {
         if self.samples.len() < 4 {
             self.samples.push(v);
@@ -121,7 +126,12 @@ impl Cov {
         self.ticks += o.ticks;
         self.sim_time += o.sim_time;
         for (k, v) in o.counters {
-            *self.counters.entry(k).or_insert(0) += v;
+            if k.starts_with("max.") {
+                let e = self.counters.entry(k).or_insert(0);
+                *e = (*e).max(v);
+            } else {
+                *self.counters.entry(k).or_insert(0) += v;
+            }
         }
         for i in 0..self.sites.len() {
             self.sites[i] += o.sites[i];
